@@ -24,7 +24,7 @@ from engine import extsrc
 from .common import reachable_functions, resolve_call, explicit_parent_call
 from engine.guards import cond_text
 from engine import norm as _norm
-from .sem import cond_want, expander, ctext, conds_at, guarded_values, norm_literal_guard, bind, stmt_of
+from .sem import defs_texts, cond_want, expander, ctext, conds_at, guarded_values, norm_literal_guard, bind, stmt_of
 
 RULES = {
     "C06.a": "norm='L2' branch of fit/predict/transform is exactly KMeans.<same method>(self, ...) with every shared parameter forwarded; dispatchers agree on the norm set",
@@ -259,6 +259,10 @@ def check_c(ck, repo):
         return
     r = rets[0]
     lab, ine, cen = [src_of(e) for e in r.value.elts[:3]]
+    # the centres returned are the output of an M-step (a copy of it), never the centres it started from
+    cds = [(st_, t) for st_, t in defs_texts(repo, ll, cen)]
+    okc = bool(cds) and all(t in ("None", "(None, None, None)[2]") or (t.startswith("_centers_dense(") and (t.endswith(").copy()") or t.endswith(")"))) or (t.startswith("numpy.copy(_centers_dense(") ) for _, t in cds) and any(t.startswith("_centers_dense(") for _, t in cds)
+    ck.verdict(okc, "C06.c", ll, f"{cen} = {[t[:40] for _, t in cds]}", "the centres returned are (a copy of) the M-step's output of the best iteration", f"{cen} is bound to {[t[:60] for _, t in cds]}: the centres returned are not the medians computed by the M-step (e.g. the centres the iteration started from)")
     found = False
     for s in own_nodes(ll.node):
         if isinstance(s, ast.Assign) and isinstance(s.targets[0], ast.Tuple) and [src_of(e) for e in s.targets[0].elts] == [lab, ine] and isinstance(s.value, ast.Call) and src_of(s.value.func) == "_labels_inertia":
@@ -373,6 +377,7 @@ WITNESSES = [
     {"name": "kinit-l1-euclidean", "file": _F, "rule": "C06.b", "old": "        dist_fct = lambda x, y: manhattan_distances(x, y)\n", "new": "        dist_fct = lambda x, y: euclidean_distances(x, y, squared=True)\n"},
     {"name": "mstep-mean", "file": _F, "rule": "C06.c", "old": "            med = numpy.median(sub, axis=0)\n", "new": "            med = numpy.mean(sub, axis=0)\n"},
     {"name": "mstep-wrong-axis", "file": _F, "rule": "C06.c", "old": "            med = numpy.median(sub, axis=0)\n", "new": "            med = numpy.median(sub, axis=1)\n"},
+    {"name": "best-centers-before-mstep", "file": _F, "rule": "C06.c", "old": "            best_centers = centers.copy()\n", "new": "            best_centers = centers_old\n"},
     {"name": "final-estep-old-centers", "file": _F, "rule": "C06.c", "old": "            norm, X, sample_weight, best_centers, distances=distances\n", "new": "            norm, X, sample_weight, centers_old, distances=distances\n"},
     {"name": "final-estep-removed", "file": _F, "rule": "C06.c", "old": "        best_labels, best_inertia = _labels_inertia(\n            norm, X, sample_weight, best_centers, distances=distances\n        )\n", "new": "        pass\n"},
 ]
